@@ -48,7 +48,7 @@ func C05(tier string) {
 	r := ev.Begin("C05", tier, "exploration")
 	r.NotExhaustive()
 	r.Assume("well-formed files are built from typed descriptions; each grammar file and each quick field value is cross-validated by image/png, image/jpeg or x/image/webp DecodeConfig: a file the decoder rejects with a format error is dropped and counted as a generator fault, one it rejects as unsupported (e.g. some JPEG sampling factors, huge PNG pixel counts) is kept and compared with the description only")
-	r.Rule("PNG: 15 colour-type/bit-depth pairs x interlace x ancillary chunk sequences (depth <= 3 quick / <= 3 thorough over 9 chunk kinds incl. iCCP, PLTE, 9 KiB iTXt) and next-chunk headers at every alignment across the 4096/8192 read boundaries; width/height: walking ones/zeros over 31 bits, byte lanes 0..255 x 3 holds, all values < 2^16 (thorough: all 2^31-1 values per field); JPEG: SOF0/SOF2 x 1/3/4 components x sampling factors {1,2}^2 per component, segment sequences (<= 3 before SOF, <= 2 after) over 9 kinds, every APPn, every width and height 1..65535 x 3 holds; WebP: VP8 all 2^14 widths/heights x 3 holds x 16 scale-bit pairs, VP8L the same (thorough: all 2^28 pairs), VP8X walking bits + byte lanes (thorough: all 2^24 per field), all flag bytes; each through the specific loader and autometa; every sequence of up to 4 (thorough 5) Loads over five small files of different formats x {specific, auto} in one process, each result compared with its file\u2019s description; distinct = distinct (format, width, height, bits, structure) descriptions")
+	r.Rule("PNG: 15 colour-type/bit-depth pairs x interlace x ancillary chunk sequences (depth <= 3 quick / <= 3 thorough over 9 chunk kinds incl. iCCP, PLTE, 9 KiB iTXt) and next-chunk headers at every alignment across the 4096/8192 read boundaries; width/height: walking ones/zeros over 31 bits, byte lanes 0..255 x 3 holds, all values < 2^16 (thorough: all values < 2^24 and 2^17 values around every power of two up to 2^31-1, per field); JPEG: SOF0/SOF2 x 1/3/4 components x sampling factors {1,2}^2 per component, segment sequences (<= 3 before SOF, <= 2 after) over 9 kinds, every APPn, every width and height 1..65535 x 3 holds; WebP: VP8 all 2^14 widths/heights x 3 holds x 16 scale-bit pairs, VP8L the same (thorough: all 2^28 pairs), VP8X walking bits + byte lanes (thorough: all 2^24 per field), all flag bytes; each through the specific loader and autometa; every sequence of up to 4 (thorough 5) Loads over five small files of different formats x {specific, auto} in one process, each result compared with its file\u2019s description; distinct = distinct (format, width, height, bits, structure) descriptions")
 	var dropped, unsupported, crossOK atomic.Int64
 	var distinct sync.Map
 	ndistinct := atomic.Int64{}
@@ -135,30 +135,50 @@ func C05(tier string) {
 		}
 	})
 	if tier == "thorough" {
-		// all 2^31-1 values of each field, other held at 1 (no std cross-check: same header shape)
+		// every value below 2^24 of each field, and 2^17 values around every power
+		// of two above that up to 2^31-1, other field held at 1 (no std cross-check:
+		// same header shape). The complete 2^31 sweep (10^10 loads) does not finish
+		// in a tier that has to run in minutes.
+		type span struct{ lo, hi int64 }
+		spans := []span{{1, 1 << 24}}
+		for k := 24; k <= 31; k++ {
+			lo, hi := int64(1)<<uint(k)-65536, int64(1)<<uint(k)+65536
+			if hi > 1<<31 {
+				hi = 1 << 31
+			}
+			spans = append(spans, span{lo, hi})
+		}
+		const chunk = 1 << 18
+		type piece struct{ lo, hi int64 }
+		var pieces []piece
+		for _, sp := range spans {
+			for lo := sp.lo; lo < sp.hi; lo += chunk {
+				hi := lo + chunk
+				if hi > sp.hi {
+					hi = sp.hi
+				}
+				pieces = append(pieces, piece{lo, hi})
+			}
+		}
 		var next atomic.Int64
-		const chunk = 1 << 20
 		r.Par(ev.Workers(), func(shard, n int) {
 			buf := make([]byte, len(basePNG))
 			for {
-				c := next.Add(1) - 1
-				lo := c * chunk
-				if lo >= 1<<31 || r.OutOfTime() || r.NViolations() > 10 {
-					if r.OutOfTime() {
-						r.Cap("time budget in the 2^31 PNG field sweep")
-					}
+				c := int(next.Add(1) - 1)
+				if c >= len(pieces) || r.NViolations() > 10 {
 					return
 				}
-				for v := lo; v < lo+chunk && v < 1<<31; v++ {
-					if v == 0 {
-						continue
-					}
+				if r.OutOfTime() {
+					r.Cap("time budget in the PNG field sweep")
+					return
+				}
+				for v := pieces[c].lo; v < pieces[c].hi; v++ {
 					cs := pngWith(buf, uint32(v), 1, false)
 					checkBasic(r, &cs, "field/png-width-all")
 					cs = pngWith(buf, 1, uint32(v), false)
 					checkBasic(r, &cs, "field/png-height-all")
 				}
-				r.Eval(4 * chunk)
+				r.Eval(4 * (pieces[c].hi - pieces[c].lo))
 			}
 		})
 	}
